@@ -156,6 +156,8 @@ type Scn struct {
 	CancelAtMs int                `json:"cancel_at_ms,omitempty"` // cancel the caller's context (icmp/sack take one)
 	EpsNs      int64              `json:"eps_ns,omitempty"`
 	NoOwnLoop  bool               `json:"no_own_loop,omitempty"`
+	// DirectIP: the capture source hands over IP packets directly (a read can fill the whole buffer)
+	DirectIP bool `json:"direct_ip,omitempty"`
 	// SilentElsewhere: a probe whose TTL has no entry in Hops is not answered either (a TTL the run was never asked to probe)
 	SilentElsewhere bool `json:"silent_elsewhere,omitempty"`
 	// WallStepSec / WallStepAtMs: the wall clock is stepped by that many seconds at that virtual instant (NTP step, resumed
@@ -711,6 +713,7 @@ func Prepare(script *Script, scns ...*Scn) *simnet.Net {
 	n.Faults = sc0.Faults
 	n.FiltersOff = sc0.FiltersOff
 	n.NoOutgoingLoop = sc0.NoOwnLoop
+	n.DirectIP = sc0.DirectIP
 	if sc0.EpsNs > 0 {
 		n.EpsNs = sc0.EpsNs
 	}
